@@ -221,13 +221,9 @@ def processStep (st : DState) (si : StepIn) : DState × String := Id.run do
   -- C15
   match si.fault with
   | some k =>
-    let (_, mo0) := stepF noFault cur si.op
-    if mo0.ok && k < mo0.msgs.length && (io.ok || !unchanged) then
-      orc := orc ++ ["o15"]
-      -- C10: the failed message was the community-pool deposit, yet the proceeds left
-      match mo0.msgs[k]? with
-      | some (.fundPool ..) => if io.ok then orc := orc ++ ["o10f"]
-      | _ => pure ()
+    if !oracle15 cur si.op k io.ok unchanged then orc := orc ++ ["o15"]
+    -- C10: the failed message was the community-pool deposit, yet the proceeds left
+    if !oracle10f cur si.op k io.ok then orc := orc ++ ["o10f"]
   | none => pure ()
   -- C07 drain mode
   if st.drain && !io.ok && adopt then orc := orc ++ ["o07"]
